@@ -41,7 +41,7 @@ ASSUMPTIONS = [
 ]
 SHARD_TIMEOUT = {"quick": 900, "thorough": 5400}
 
-PROFILE = dict(interpreted_functions=0.15, undefined_init=0.25, invariants=0.3, coinciding_forall=0.08, int_params=0.12, toggle_pairs=0.3)
+PROFILE = dict(interpreted_functions=0.15, undefined_init=0.25, invariants=0.3, coinciding_forall=0.08, int_params=0.12, toggle_pairs=0.3, indirect_invariants=0.15)
 BOUNDS = {"quick": dict(n=1000, depth=3, max_states=40, max_inst=40, walk=45), "thorough": dict(n=3000, depth=5, max_states=250, max_inst=60, walk=120)}
 
 
@@ -83,7 +83,13 @@ def build(key, profile):
     from unified_planning.exceptions import UPException
 
     rng = rng_for(key)
-    rec, feats = gen_problem(rng, profile)
+    if profile and profile.get("indirect_invariants"):
+        # invariants that reach the constrained ground fluent through an object-valued fluent argument (generator of C04)
+        from vk.checks.c04 import gen_problem as gen_indirect
+
+        rec, feats = gen_indirect(rng, profile)
+    else:
+        rec, feats = gen_problem(rng, profile)
     e = _env.fresh_env()
     try:
         pb, ctx = instantiate_problem(rec, e)
